@@ -13,6 +13,7 @@
 #include "uthash.h"
 struct bay;
 struct loom;
+struct pcf;
 struct pcf_type;
 struct recorder;
 struct thread;
@@ -80,6 +81,7 @@ USE_RET int cpu_remove_thread(struct cpu *cpu, struct thread *thread);
 USE_RET int cpu_migrate_thread(struct cpu *cpu, struct thread *thread, struct cpu *newcpu);
 
 USE_RET struct chan *cpu_get_th_chan(struct cpu *cpu);
+USE_RET int cpu_create_pcf_types(struct pcf *pcf);
 USE_RET struct pcf_value *cpu_add_to_pcf_type(struct cpu *cpu, struct pcf_type *type);
 
 #endif /* CPU_H */
